@@ -328,6 +328,9 @@ func (g *seqGen) genOp() seqOp {
 		if g.cfg.Size == "none" {
 			op.Max2 = 0
 		}
+		if g.rng.Intn(3) == 0 {
+			op.Slow = pick(g.rng, int64(1), int64(2), int64(3), int64(6))
+		}
 	}
 	return op
 }
